@@ -97,8 +97,13 @@ func TestPropForwardedLine(t *testing.T) {
 		tab := h.NewTable(false)
 		nrw := rapid.IntRange(0, 4).Draw(t, "nrw")
 		var rws []ref.RW
+		repeated := false
 		for i := 0; i < nrw; i++ {
 			r := ref.GenRW(t)
+			if i > 0 && rapid.IntRange(0, 3).Draw(t, "repeatrule") == 0 {
+				r = rws[rapid.IntRange(0, i-1).Draw(t, "which")] // the same rule again: a list may hold a rule twice (applied twice)
+				repeated = true
+			}
 			rw, err := r.Real()
 			if err != nil {
 				t.Fatalf("HARNESS-ERROR: rewriter %s refused: %v", r, err)
@@ -273,7 +278,7 @@ func TestPropForwardedLine(t *testing.T) {
 		if fmt.Sprint(norm(gotAgg)) != fmt.Sprint(norm(wantAgg)) {
 			t.Fatalf("aggregation saw names %v, want %v (inputs %q rewriters %v)", gotAgg, wantAgg, inputs, rws)
 		}
-		rec.Case(fmt.Sprintf("%v | %q", rws, inputs), changed || odd || reused, fmt.Sprintf("rewritten=%v", changed), fmt.Sprintf("odd-whitespace=%v", odd), fmt.Sprintf("nrw=%d", nrw))
+		rec.Case(fmt.Sprintf("%v | %q", rws, inputs), changed || odd || reused, fmt.Sprintf("rewritten=%v", changed), fmt.Sprintf("odd-whitespace=%v", odd), fmt.Sprintf("nrw=%d", nrw), fmt.Sprintf("repeated-rule=%v", repeated))
 	})
 }
 
